@@ -326,8 +326,8 @@ def run(ctx):
                     if ch.get("k") == "if":
                         rec(ch["cond"], conds_)
                         rec(ch["then"], conds_ + [(ch["cond"], True)])
-                        if ch.get("els") is not None:
-                            rec(ch["els"], conds_ + [(ch["cond"], False)])
+                        if ch.get("else") is not None:
+                            rec(ch["else"], conds_ + [(ch["cond"], False)])
                         continue
                     if ch.get("k") == "mcall" and ch.get("name") == "empty" and "TlvForwarder" in (ch.get("recv_ty") or ""):
                         okp = False
